@@ -134,12 +134,6 @@ def check_bounded_read_loop(R, f, rid_prefix, loop, counter, buff_names, require
                  'the read loop is left on a condition other than an empty read (e.g. a read shorter than requested): the rest of the declared '
                  'body stays unread in the stream and the application sees a truncated body',
                  why='the body is byte-exact however the stream fragments its reads, including short reads', key_extra='exit')
-        # each part is handed over in the iteration that read it
-        part_yields = [y for y in ys if var in names_loaded(y.ast)]
-        R.ob(rid_prefix + 'c', f, c, bool(part_yields), text=f'the part read is yielded in the same loop iteration', detail='' if part_yields else
-             f'`{var}` is not yielded inside the read loop (collected and handed over later): the consumer cannot check size limits or spool '
-             f'per buffer, and a whole chunk / body is held in memory first',
-             why='parts are delivered buffer by buffer', key_extra='handover')
         # the yield of the part must be guarded by the non-empty edge
         for y in ys:
             if var in names_loaded(y.ast):
